@@ -234,7 +234,24 @@ func c11Run(units []c11Unit, layout jg.Layout) engine.Result {
 	testFiles := cocafile.GetJavaTestFiles(root)
 	idents := identPass(testFiles)
 	nodes := fullPass(idents, testFiles)
-	results := tbs.NewTbsApp().AnalysisPath(nodes, core_domain.BuildIdentifierMap(idents))
+	identMap := core_domain.BuildIdentifierMap(idents)
+	results := tbs.NewTbsApp().AnalysisPath(nodes, identMap)
+	// the detector walks maps: repeat it and judge the first result that differs from the first run as well
+	canonRun := func(rs []tbs.TestBadSmell) string {
+		var l []string
+		for _, r := range rs {
+			l = append(l, fmt.Sprintf("%s %s:%d", r.Type, r.FileName, r.Line))
+		}
+		sort.Strings(l)
+		return strings.Join(l, "\n")
+	}
+	for rep := 0; rep < 7; rep++ {
+		again := tbs.NewTbsApp().AnalysisPath(nodes, identMap)
+		if canonRun(again) != canonRun(results) {
+			res.Violations = append(res.Violations, engine.V("findings", "differs-between-runs", "two runs of the detector on the same model disagree:\n%s\n--\n%s", canonRun(results), canonRun(again)))
+			break
+		}
+	}
 	var lines []string
 	for _, r := range results {
 		lines = append(lines, fmt.Sprintf("%s %s:%d", r.Type, rel(root, r.FileName), r.Line))
@@ -348,6 +365,19 @@ func c11GenTree(c *engine.C) engine.Case {
 					tokens = append(tokens, which)
 				}
 			}
+			// a second group of five like calls that are not assertions, next to the repeated assertion
+			if rep > 0 {
+				switch c.Choose(3, fmt.Sprintf("%sm%d-five-plain-calls", pfx, mi)) {
+				case 1:
+					for r := 0; r < 5; r++ {
+						tokens = append(tokens, "println")
+					}
+				case 2:
+					for r := 0; r < 5; r++ {
+						tokens = append(tokens, "helper-plain")
+					}
+				}
+			}
 			unit.methods = append(unit.methods, c11MakeMethod(fmt.Sprintf("test%d", mi), ak, tokens))
 		}
 		unit.cls = c11Class(name, unit.methods)
@@ -371,6 +401,7 @@ func init() {
 		Sections: []engine.Section{
 			{Name: "evidence-sequences", KQuick: -1, KThor: -1, Gen: c11GenSeq},
 			{Name: "trees", KQuick: 3, KThor: 4, Gen: c11GenTree},
+			{Name: "through-coca-tbs", KQuick: 1, KThor: 2, Gen: cliTbsGen},
 		},
 	})
 }
